@@ -324,11 +324,28 @@ def handoff(check, prog):
     # angles handed over in degrees, from the theta/phi rows of pos
     for k, col in [('thet', 0), ('phi', 1)]:
         t = sph[k]
+        # the azimuth may be reduced modulo a full turn (the same direction; the
+        # solver takes 0..360 only), the polar angle is handed over as it is
+        base = t
+        wrapped = False
+        if k == 'phi' and base[0] == 'bin' and base[1] == '%' and base[3] == num(360):
+            base = base[2]
+            wrapped = True
         ok = any(x[0] == 'num' for x in subterms(t)) and \
-            canon.equal(t, O('(pos.T[:, 1:] * 180/np.pi)[:, %d]' % col))
+            canon.equal(base, O('(pos.T[:, 1:] * 180/np.pi)[:, %d]' % col))
         check.require(ok, 'E5-handoff-formula', 'Tmatrix._parse_args angles.%s' % k,
                       'detector angles converted to degrees, column %d' % col, loc,
                       fail_detail='%s is %s' % (k, canon.show(t)))
+        if k == 'phi':
+            # E3: any azimuth a detector point is given with reaches the solver
+            # inside 0..360 (outside, AMPL reports failure for that point and all
+            # after it)
+            check.require(wrapped, 'E3-angle-range', 'Tmatrix._parse_args detector azimuth',
+                          'the azimuth is reduced modulo 360 degrees', loc,
+                          fail_detail='phi is %s: detector_points(theta, phi=-0.5) -- '
+                          'the direction 2 pi - 0.5 -- is answered with TmatrixFailure '
+                          '("angle out of range") where Mie and Multisphere compute it'
+                          % canon.show(t)[:80])
     # can_handle <-> _parse_args, as a truth table over every scatterer class of the
     # package (and a non-scatterer): the class is accepted iff _parse_args does not
     # refuse it.  Independent of how the isinstance tests are spelled or ordered.
